@@ -62,6 +62,11 @@ ASSUMPTIONS = [
     'MParen nodes of the expression',
     'complement of a lattice cell: the code returns an empty intersection; '
     'tied and proved empty, not compared with MCNP',
+    'cell cards (split): no LIKE n BUT; material numbers written as digit '
+    'strings (float() of anything else is outside the model); in the theorem '
+    'the density consists of digits, signs and "." (no E exponent letter) and '
+    'the expression is separated from it by a blank; the regexes of '
+    'cellcard.py are read as greedy scans',
 ]
 HEADER = ('From Coq Require Import List NArith ZArith Bool String Ascii.\n'
           'From T4V Require Import Base.Str C11.Model C11.Exec.\n'
